@@ -395,6 +395,10 @@ func (s *Lexer) getNextToken() (*Token, error) {
 			buf.WriteRune(ch)
 			current_state = SBLOCKCOMMENTFINAL
 			break
+		} else if current_state == SBLOCKCOMMENTENDEND && ch == ')' {
+			// ")-)" : this parenthesis may still start the end of the comment
+			buf.WriteRune(ch)
+			current_state = SBLOCKCOMMENTSTARTEND
 		} else if current_state == SBLOCKCOMMENTENDEND || current_state == SBLOCKCOMMENTSTARTEND {
 			buf.WriteRune(ch)
 			current_state = SBLOCKCOMMENT
